@@ -212,6 +212,17 @@ def leaf1(version, attrs):
     return node(version, attrs, [])
 
 
+def parent_attrs(d):
+    """attributes of a parent definition as the comparison reads them: the property map is a MAPPING (EventTypeParent.get_property_map
+    builds a dictionary), so its entries are given in canonical order"""
+    out = []
+    for k, v in d.items():
+        if k == 'property-map' and isinstance(v, str):
+            v = ','.join(sorted(v.split(',')))
+        out.append((k, v))
+    return out
+
+
 def prop_node(d, version, onto=None):
     attrs = [(k, d[k]) for k in d if k not in ('name', 'concepts')]
     if onto is not None:
@@ -227,7 +238,7 @@ def rel_key(et_name, r):
 def et_node(d, onto=None):
     v = d['version']
     attrs = [(k, d[k]) for k in d if k not in ('name', 'version', 'parent', 'properties', 'relations', 'attachments')]
-    groups = [('parent', [('parent', leaf1(v, list(d['parent'].items())))] if d['parent'] else []),
+    groups = [('parent', [('parent', leaf1(v, parent_attrs(d['parent'])))] if d['parent'] else []),
               ('properties', [(p['name'], prop_node(p, v, onto)) for p in d['properties']]),
               ('relations', [(rel_key(d['name'], r), leaf1(v, [(k, r[k]) for k in r])) for r in d['relations']]),
               ('attachments', [(a['name'], leaf1(v, [(k, a[k]) for k in a if k != 'name'])) for a in d['attachments']])]
@@ -249,6 +260,15 @@ def base_ontology():
                attachments=[ATT('doc')],
                parent=PARENT('parent', 'p:k'))],
         sources=[SOURCE('/s/', **{'date-acquired': '20200101'})])
+
+
+def two_entry_parent(order):
+    """the base ontology whose parent event type has a second hashed property; order: the property map as written"""
+    b = base_ontology()
+    par = next(e for e in b['event-types'] if e['name'] == 'parent')
+    par['properties'].append(PROP('k2', 'e', merge='match'))
+    _et(b)['parent']['property-map'] = order
+    return b
 
 
 def OTfix(d):
@@ -336,6 +356,12 @@ def edit_catalogue():
     for k, v in [('description', 'the doc'), ('display-name-singular', 'document'), ('display-name-plural', 'documents'),
                  ('media-type', 'text/html'), ('media-type', 'Text/Plain'), ('encoding', 'base64'), ('description', 'DOC')]:
         E.append(('attachment', 'ta.doc.%s=%s' % (k, v), setter(lambda o: _et(o)['attachments'][0], k, v)))
+    # shared compound edits of one property: an acceptable change together with a forbidden one
+    E.append(('property', 'ta.p.optional+object-type', lambda o: _prop(o, 'p').update({'optional': True, 'object-type': 'g'})))
+    E.append(('property', 'ta.p.optional+merge', lambda o: _prop(o, 'p').update({'optional': True, 'merge': 'any'})))
+    E.append(('property', 'ta.q.description+single', lambda o: _prop(o, 'q').update({'description': 'other', 'multivalued': False})))
+    # an attachment replaced by another one (as many as before, but one is gone)
+    E.append(('event-type', 'ta.attachment-renamed', lambda o: (_et(o)['attachments'].pop(), _et(o)['attachments'].append(ATT('doc9')))))
     for k, v in [('parent-description', 'owned by'), ('siblings-description', 'next to'), ('property-map', 'q:k')]:
         E.append(('parent', 'ta.parent.' + k, setter(lambda o: _et(o)['parent'], k, v)))
     return E
